@@ -3,8 +3,11 @@ package main
 import (
 	"encoding/binary"
 	"fmt"
+	"reflect"
 	"runtime"
 	"time"
+
+	"github.com/M2MGateway/go-smpp/pdu"
 )
 
 func init() { corrTable["C04"] = corrC04 }
@@ -121,7 +124,33 @@ func corrC04(r *Run) {
 	for i := 0; i < n; i++ {
 		var data []byte
 		bucket := ""
-		switch i % 6 {
+		switch i % 7 {
+		case 6: // valid mandatory parameters followed by a raw TLV section: standard tags, empty and undersized values
+			t := ts[r.Rng.Intn(len(ts))]
+			p := genPDU(r.Rng, t, modeDomain)
+			v := reflect.ValueOf(p).Elem()
+			for j := 0; j < v.NumField(); j++ {
+				if _, ok := v.Field(j).Interface().(pdu.Tags); ok {
+					v.Field(j).Set(reflect.Zero(v.Field(j).Type()))
+				}
+			}
+			_, err, w, panicked, _ := marshalRec(p)
+			if err != nil || panicked || len(w.calls) != 1 {
+				data = r.Rng.Bytes(20)
+			} else {
+				data = append(append([]byte(nil), w.calls[0]...), rawTLVs(r.Rng)...)
+				binary.BigEndian.PutUint32(data, uint32(len(data)))
+			}
+			bucket = "valid+raw-tlvs"
+			if r.Rng.Intn(2) == 0 {
+				multi := r.Rng.Intn(3) == 0
+				id := uint32(r.Rng.Pick([]int{4, 5}))
+				if multi {
+					id = 0x21
+				}
+				data = rawFrame(id, 0, int32(1+r.Rng.Intn(1<<20)), handBody(r.Rng, multi))
+				bucket = "hand-laid"
+			}
 		case 0: // unstructured
 			data = r.Rng.Bytes(r.Rng.Pick([]int{0, 1, 3, 15, 16, 17, 31, 32, 64, 200, 1000}))
 			if r.Rng.Intn(2) == 0 && len(data) >= 4 {
